@@ -544,6 +544,11 @@ class BSession:
         g.scalar = lambda small=False: self.g.scalar()
         g.key = lambda: self.g.r.choice(KEYS)
         fi = self.binding[oi]
+        if (self.p.get("first_reset") and self.any_buffered(oi) and not self.entered.get(fi)
+                and self.g.r.random() < self.p["first_reset"]):
+            # the first buffered access to a file is a root reset (no load): also on a file that does not exist yet
+            self.count("first-access-reset")
+            return [], (("LReset", self.g.container("list", 1)) if self.kind == "list" else ("DReset", self.g.container("dict", 1)))
         # choose a path into the object's current in-memory data (no loads)
         data = self.objs[oi]._to_base()
         path = []
@@ -675,8 +680,8 @@ def strict_eq_m(a, b):
 
 
 BPROFILES = {
-    "C05": {"files": 2, "binding": [0, 1], "w_op": 0.6, "reads": 0.35, "ctx_caps": [None, None, None, 10 ** 6]},
-    "C05cap": {"files": 2, "binding": [0, 1], "w_op": 0.55, "w_cap": 0.08, "reads": 0.3, "ctx_caps": [None, 0, 1, 2, 40, 100], "caps": [0, 1, 2, 30, 80, 10 ** 6]},
+    "C05": {"files": 2, "binding": [0, 1], "w_op": 0.6, "reads": 0.35, "ctx_caps": [None, None, None, 10 ** 6], "init_p": 0.75, "first_reset": 0.3},
+    "C05cap": {"files": 2, "binding": [0, 1], "w_op": 0.55, "w_cap": 0.08, "reads": 0.3, "ctx_caps": [None, 0, 1, 2, 40, 100], "caps": [0, 1, 2, 30, 80, 10 ** 6], "init_p": 0.85},
     "C06": {"files": 2, "binding": [0, 0, 1], "w_op": 0.6, "reads": 0.4, "ctx_caps": [None]},
     "C06b": {"files": 1, "binding": [0, 0, 0], "w_op": 0.6, "reads": 0.4, "ctx_caps": [None], "nested": False},
     "C07": {"files": 2, "binding": [0, 0, 1], "w_op": 0.5, "w_ext": 0.12, "reads": 0.4, "ctx_caps": [None, None, 10 ** 6]},
@@ -1132,6 +1137,26 @@ def run_buf_faults(prop, tier, seed):
                 if raised is None:
                     res["oracle_failures"].append({"oracle": "C05-final-fault", "cls": cls.__name__, "victim": victim,
                                                    "detail": "a collection could not be written at the exit, yet the exit raised nothing"})
+                # C17: once the failed exit is over, a context that only READS the healthy collections writes nothing
+                stamps = {}
+                for j, fn in enumerate(files):
+                    if j != victim:
+                        st_ = os.stat(fn)
+                        stamps[j] = (st_.st_ino, st_.st_mtime_ns, st_.st_size)
+                try:
+                    with cls.buffer_backend():
+                        for j, o in enumerate(objs):
+                            if j != victim:
+                                o()
+                except BaseException as e:  # noqa
+                    res["oracle_failures"].append({"oracle": "C17-after-fault", "cls": cls.__name__, "victim": victim,
+                                                   "detail": f"a read-only context after the failed exit raised {type(e).__name__}: {e}"})
+                for j, fn in enumerate(files):
+                    if j != victim:
+                        st_ = os.stat(fn)
+                        if stamps[j] != (st_.st_ino, st_.st_mtime_ns, st_.st_size):
+                            res["oracle_failures"].append({"oracle": "C17-after-fault", "cls": cls.__name__, "victim": victim, "file": j,
+                                                           "detail": f"a buffered context that only read collection {j} rewrote its file (the previous exit had failed for collection {victim})"})
                 if cls.get_current_buffer_size() != 0 or cls._buffer:
                     res["oracle_failures"].append({"oracle": "C15-zero", "cls": cls.__name__, "victim": victim,
                                                    "detail": f"after the exit (which raised {raised}) size is {cls.get_current_buffer_size()} and {len(cls._buffer)} entries remain"})
